@@ -744,6 +744,9 @@ def annotate(text, annots):
             at = a["at"]
             if at == "body_start":
                 ins.append((ts[b].end, "\n" + a["text"].rstrip() + "\n", "ghost", order))
+            elif at == "body_end":
+                # after the last statement of the body (before its tail expression, if it has one)
+                ins.append((_block_end_pos(ts, b, e), "\n" + a["text"].rstrip() + "\n", "ghost", order))
             elif at == "match_arm_end":
                 # end of the block of the k-th arm of the n-th `match` of the body (arms with `{}` blocks only)
                 ms = [x for x in range(b + 1, e) if ts[x].kind == "ident" and ts[x].text == "match"]
